@@ -36,8 +36,18 @@ FieldValue(t) == CASE t = "Int" -> PN
 FieldNames == <<"f1", "f2", "f3", "f4", "f5", "f6">>
 RECURSIVE FieldsDecl(_, _)
 FieldsDecl(n, t) == IF n = 0 THEN <<>> ELSE FieldsDecl(n - 1, t) \o <<[name |-> FieldNames[n], ty |-> FieldTyName(t)]>>
+\* the value written for field i: different from its neighbours, so that a value landing in another field shows
+FieldValueAt(t, i) == CASE t = "Int" -> Op("add", PN, Lit(i))
+                        [] t = "Bytes" -> Op("concat", PB, Hex(<<i>>))
+                        [] t = "Bool" -> [k |-> "bool", flag |-> (i % 2 = 1)]
+                        [] t = "Rec" -> CtorE("Rec", "", <<F("f1", Op("add", PN, Lit(i))), F("f2", PB)>>, Absent)
+                        [] t = "ListInt" -> [k |-> "list", items |-> <<PN, Lit(i)>>]
+                        [] t = "MapIntBytes" -> [k |-> "map", pairs |-> <<[a |-> Lit(i), b |-> PB]>>]
 RECURSIVE FieldsVal(_, _)
-FieldsVal(n, t) == IF n = 0 THEN <<>> ELSE FieldsVal(n - 1, t) \o <<F(FieldNames[n], FieldValue(t))>>
+FieldsVal(n, t) == IF n = 0 THEN <<>> ELSE FieldsVal(n - 1, t) \o <<F(FieldNames[n], FieldValueAt(t, n))>>
+\* the same constructor with its fields written in the opposite order
+RECURSIVE Reversed(_)
+Reversed(sq) == IF sq = <<>> THEN <<>> ELSE Reversed(Tail(sq)) \o <<Head(sq)>>
 \* a variant type with 140 cases named by their index; case `ix` has `nf` fields of type `t`
 RECURSIVE BigCases(_, _, _, _)
 BigCases(i, ix, nf, t) == IF i > MaxCase THEN <<>>
@@ -48,11 +58,11 @@ BigType(ix, nf, t) == [name |-> "Big", record |-> FALSE, cases |-> BigCases(0, i
 AllFeatures == {"metadata", "input_redeemer", "mint", "mint_redeemer", "burn_same", "burn_other_asset", "burn_all",
                 "optional_empty", "optional_full", "reference", "reference_twice", "collateral", "signers", "signers_dup", "signers_apart",
                 "datum", "second_input", "validity",
-                "donation", "plutus_witness", "plutus_witness_v2", "native_witness", "publish_script", "vote_deleg"}
+                "donation", "plutus_witness", "plutus_witness_v2", "native_witness", "publish_script", "vote_deleg", "witness_more"}
 
 \* the block-presence lattice: every subset of the core features, and every subset of the chain-specific ones
 \* inside a few core contexts (the two families multiply otherwise)
-ChainFeatures == {"donation", "plutus_witness", "plutus_witness_v2", "native_witness", "publish_script", "vote_deleg"}
+ChainFeatures == {"donation", "plutus_witness", "plutus_witness_v2", "native_witness", "publish_script", "vote_deleg", "witness_more"}
 CoreContexts == {{}, {"mint", "mint_redeemer", "collateral"}, {"input_redeemer", "metadata", "signers"}, {"mint", "mint_redeemer", "burn_all", "datum"}}
 C10Lattice == (SUBSET (Features \ ChainFeatures))
               \cup {a \cup b : a \in {x \cap Features : x \in CoreContexts}, b \in SUBSET (Features \cap ChainFeatures)}
@@ -97,10 +107,10 @@ C08Prog(x) ==
                                                 ELSE <<UtxoAt(x.refs[i], 5000000)>>]]]
 
 \* ---- C09 cases
-C09Cases == {[kind |-> "c09", ix |-> ix, nf |-> nf, ty |-> t, where |-> w] :
-                ix \in CtorIxs, nf \in FieldCounts, t \in FieldTypes, w \in {"datum", "redeemer"}}
+C09Cases == {[kind |-> "c09", ix |-> ix, nf |-> nf, ty |-> t, where |-> w, rev |-> r] :
+                ix \in CtorIxs, nf \in FieldCounts, t \in FieldTypes, w \in {"datum", "redeemer"}, r \in BOOLEAN}
 C09Prog(x, envId) ==
-    LET e == CtorE("Big", x.ix, FieldsVal(x.nf, x.ty), Absent)
+    LET e == CtorE("Big", x.ix, IF x.rev THEN Reversed(FieldsVal(x.nf, x.ty)) ELSE FieldsVal(x.nf, x.ty), Absent)
         tx == IF x.where = "datum"
               THEN [BaseB EXCEPT !.outputs = <<Out("named", FALSE, Receiver, AdaE(Lit(2000000)), e)>>]
               ELSE [BaseB EXCEPT !.mints = <<[amount |-> TokE(Lit(3)), redeemer |-> e]>>]
@@ -134,6 +144,11 @@ C10Prog(fs) ==
                              \o (IF has("plutus_witness") THEN <<PlutusW(Lit(3), Hex(PlutusScriptBytes))>> ELSE <<>>)
                              \o (IF has("plutus_witness_v2") THEN <<PlutusW(Lit(2), Hex(PlutusScriptBytes))>> ELSE <<>>)
                              \o (IF has("native_witness") THEN <<NativeW(Hex(NativeScriptBytes))>> ELSE <<>>)
+                             \* several scripts of one language, one of them twice, and a second native script: the sets keep a stable order
+                             \o (IF has("witness_more") THEN <<PlutusW(Lit(3), Hex(<<81, 1, 1, 0, 1>>)), PlutusW(Lit(3), Hex(<<81, 1, 1, 0, 2>>)),
+                                                              PlutusW(Lit(3), Hex(<<81, 1, 1, 0, 3>>)), PlutusW(Lit(3), Hex(<<81, 1, 1, 0, 4>>)),
+                                                              PlutusW(Lit(2), Hex(<<81, 1, 1, 0, 5>>)), PlutusW(Lit(2), Hex(<<81, 1, 1, 0, 6>>)),
+                                                              NativeW(Hex(<<130, 1, 128>>))>> ELSE <<>>)
                              \o (IF has("publish_script") THEN <<Publish(Receiver, AdaE(Lit(3000000)), RecAll, Lit(3), Hex(PlutusScriptBytes))>> ELSE <<>>)
                              \o (IF has("vote_deleg") THEN <<VoteDeleg(Hex(DRepHash), Hex(StakeKeyAddr)), VoteDeleg(Hex(DRepHash), Hex(StakeKeyAddr))>> ELSE <<>>)]
         base == EnvOf(1)
